@@ -112,14 +112,14 @@ func (hc *httpCache) Get() (status Status, response *HTTPResponse) {
 	status, done, response := hc.get()
 	hc.mu.Unlock()
 	// 如果done不为空，表示需要等待确认当前请求状态
-	if done != nil {
+	for done != nil {
 		// TODO 后续再考虑是否需要添加timeout（proxy部分有超时，因此暂时可不添加)
 		<-done
-		// 完成后重新获取当前状态与响应
-		// 此时状态只可能是hit for pass 或者 hit
-		// 而此两种状态的数据缓存均不会立即失效，因此可以从hc中获取
-		status = hc.status
-		response = hc.response
+		// 完成后重新获取当前状态与响应，需要在锁内获取，
+		// 因为缓存有可能刚好过期并被其它goroutine重置（此时需要重新等待或成为fetching）
+		hc.mu.Lock()
+		status, done, response = hc.get()
+		hc.mu.Unlock()
 	}
 	return
 }
